@@ -277,7 +277,10 @@ def expand_one(mac, call, ctx):
     toks = strip_noise(lex(text))
     for t in toks:
         t.line = call.line
-    return parse_items(toks)
+    its = parse_items(toks)
+    for x in its:
+        x.conv_group = args[-1] if args else "x"
+    return its
 
 
 def flatten_fci(items, ctx, modpath):
